@@ -55,6 +55,10 @@ def cells(tier):
         out.append(Cell(pid=PID, cid='C19/merge-s3/%s/draft-%s/suffix-%s' % (scen, draft, suffix or 'default'),
                         harness='h_collect:cli_merge_cell', params={'scenario': scen, 's3': True, 'draft': draft, 'suffix': suffix},
                         sym=[('inc', 'bool'), ('ns', 'bool')], pre=[], stubs=('hash',), timeout=T, cost=4))
+    for scen in ('complete', 'incomplete', 'failing', 'reversed', 'after-delete'):
+        out.append(Cell(pid=PID, cid='C19/merge/%s/output-replaces-the-first-input' % scen, harness='h_collect:cli_merge_cell',
+                        params={'scenario': scen, 'out': 'over-input'}, sym=[('inc', 'bool'), ('ns', 'bool')], pre=[],
+                        stubs=('hash',), timeout=T, cost=4))
     out.append(Cell(pid=PID, cid='C19/merge/complete/bad-dir', harness='h_collect:cli_merge_cell',
                     params={'scenario': 'complete', 'out': 'bad-dir'}, sym=[('inc', 'bool'), ('ns', 'bool')], pre=[],
                     stubs=('hash',), timeout=T, cost=4))
